@@ -226,6 +226,9 @@ pub struct WorldSpec {
     pub n_vertex_entries: usize,
     pub fragment: bool,
     pub compute: bool,
+    /// nested fixed arrays of structs: `array<array<S, N>, M>` as variable type / member / element of a
+    /// runtime-sized array, with structs reachable from a variable ONLY through two or more array levels
+    pub nested: bool,
 }
 
 /// Build a world. Struct names deliberately include look-alikes (`S1`, `S10`) and mixed case.
@@ -294,10 +297,10 @@ pub fn world(spec: &WorldSpec, rng: &mut Rng) -> World {
                     inf.uniform_safe = false;
                     inf.has_atomic |= info[j].has_atomic;
                     inf.has_bool |= info[j].has_bool;
-                    if rng.chance(1, 3) {
-                        Ty::Array(Box::new(Ty::Struct(j)), rng.range(1, 4) as u32)
-                    } else {
-                        Ty::Struct(j)
+                    match rng.below(6) {
+                        0 | 1 => Ty::Array(Box::new(Ty::Struct(j)), rng.range(1, 4) as u32),
+                        2 if spec.nested => Ty::Array(Box::new(Ty::Array(Box::new(Ty::Struct(j)), rng.range(1, 3) as u32)), rng.range(1, 3) as u32),
+                        _ => Ty::Struct(j),
                     }
                 }
             } else if k < 17 && spec.allow_atomic && !want_bool {
@@ -319,6 +322,8 @@ pub fn world(spec: &WorldSpec, rng: &mut Rng) -> World {
                 } else {
                     leaf(rng, false, false)
                 };
+                // runtime-sized array whose element is a fixed array (of vectors / matrices / structs)
+                let base = if spec.nested && rng.chance(1, 3) { Ty::Array(Box::new(base), rng.range(1, 4) as u32) } else { base };
                 Ty::Runtime(Box::new(base))
             } else {
                 Ty::Vec(4, Sc::F32)
@@ -400,6 +405,104 @@ pub fn world(spec: &WorldSpec, rng: &mut Rng) -> World {
             binding += 1;
         }
     }
+    // ---------------- structs reachable ONLY through nested fixed arrays
+    // `Cell` structs get no variable of their own and are no direct member / single-level element of anything:
+    // the only path from a module-scope variable to them crosses two or more array levels.
+    if spec.nested {
+        let n_cells = rng.range(1, 2);
+        for ci in 0..n_cells {
+            let uniform_ok = rng.chance(1, 3);
+            let mut members = vec![];
+            for mi in 0..rng.range(1, 3) {
+                let ty = if uniform_ok {
+                    // align 16, size a multiple of 16: valid as (nested) array element in the uniform address space
+                    match (mi, rng.below(4)) {
+                        (0, _) | (_, 0) => Ty::Vec(4, Sc::F32),
+                        (_, 1) => Ty::Mat(rng.range(2, 4) as u32, 4, Sc::F32),
+                        (_, 2) => Ty::Vec(4, Sc::U32),
+                        _ => Ty::Vec(4, Sc::I32),
+                    }
+                } else {
+                    leaf(rng, spec.allow_f64, false)
+                };
+                members.push(Member { name: format!("c{mi}"), ty, attr: String::new(), builtin: false, location: None });
+            }
+            let cname = format!("{}{ci}", rng.pick(&["Cell", "Particle_", "cell_data"]));
+            w.structs.push(SDef { name: cname.clone(), members });
+            let cell = w.structs.len() - 1;
+            let arr = |t: Ty, n: u32| Ty::Array(Box::new(t), n);
+            let (a, b) = (rng.range(1, 4) as u32, rng.range(1, 3) as u32);
+            let grid = arr(arr(Ty::Struct(cell), a), b);
+            let mut shape = rng.below(7);
+            if shape == 3 && !spec.allow_runtime {
+                shape = 2;
+            }
+            if shape == 4 && !spec.allow_private {
+                shape = 0;
+            }
+            let access = if rng.chance(1, 2) { "storage, read" } else { "storage, read_write" };
+            let var = format!("nest_{ci}");
+            let mut bound = true;
+            let (decl, root) = match shape {
+                // the variable itself is an array of arrays
+                0 => (format!("var<{access}> {var}: {};", w.ty_wgsl(&grid)), grid),
+                // runtime-sized array of fixed arrays
+                1 => {
+                    let t = Ty::Runtime(Box::new(arr(Ty::Struct(cell), 4)));
+                    (format!("var<{access}> {var}: {};", w.ty_wgsl(&t)), t)
+                }
+                // member `cells: array<array<Cell, a>, b>` of a uniform / storage struct (also as array element)
+                2 | 6 => {
+                    let members = vec![
+                        Member { name: "count".into(), ty: Ty::Scalar(Sc::U32), attr: String::new(), builtin: false, location: None },
+                        Member { name: "cells".into(), ty: grid, attr: String::new(), builtin: false, location: None },
+                    ];
+                    w.structs.push(SDef { name: format!("Grid{ci}"), members });
+                    let g = w.structs.len() - 1;
+                    if shape == 6 {
+                        let t = arr(Ty::Struct(g), 2);
+                        (format!("var<{access}> {var}: {};", w.ty_wgsl(&t)), t)
+                    } else if uniform_ok {
+                        (format!("var<uniform> {var}: Grid{ci};"), Ty::Struct(g))
+                    } else {
+                        (format!("var<{access}> {var}: Grid{ci};"), Ty::Struct(g))
+                    }
+                }
+                // runtime tail of fixed arrays inside a storage struct
+                3 => {
+                    let members = vec![
+                        Member { name: "len".into(), ty: Ty::Scalar(Sc::U32), attr: String::new(), builtin: false, location: None },
+                        Member { name: "buckets".into(), ty: Ty::Runtime(Box::new(arr(Ty::Struct(cell), 4))), attr: String::new(), builtin: false, location: None },
+                    ];
+                    w.structs.push(SDef { name: format!("Buckets{ci}"), members });
+                    (format!("var<{access}> {var}: Buckets{ci};"), Ty::Struct(w.structs.len() - 1))
+                }
+                // private / workgroup variable
+                4 => {
+                    bound = false;
+                    let sp = if spec.compute && rng.chance(1, 2) { "workgroup" } else { "private" };
+                    (format!("var<{sp}> {var}: {};", w.ty_wgsl(&grid)), grid)
+                }
+                // three levels
+                _ => {
+                    let t = arr(arr(arr(Ty::Struct(cell), 2), a), 2);
+                    (format!("var<{access}> {var}: {};", w.ty_wgsl(&t)), t)
+                }
+            };
+            if bound {
+                text_globals.push_str(&format!("@group({group}) @binding({binding}) {decl}\n"));
+                binding += 1;
+            } else {
+                text_globals.push_str(&format!("{decl}\n"));
+            }
+            host_roots.push(root);
+        }
+        // nested arrays of vectors as the element of a runtime-sized array (no struct involved)
+        if rng.chance(1, 3) {
+            text_globals.push_str(&format!("@group({group}) @binding({binding}) var<storage, read> nest_vectors: array<array<vec3<f32>, {}>>;\n", rng.range(1, 4)));
+            binding += 1;
+        }
+    }
     // a plain (struct-free) binding keeps group numbering valid even when no struct got a buffer
     text_globals.push_str(&format!("@group({group}) @binding({binding}) var<uniform> plain_uniform: vec4<f32>;\n"));
 
@@ -444,11 +547,28 @@ pub fn world(spec: &WorldSpec, rng: &mut Rng) -> World {
         w.structs.push(SDef { name, members });
         vin.push(w.structs.len() - 1);
     }
-    // one vertex input struct doubles as a storage buffer element now and then ("both" role)
-    if let Some(&v) = vin.first() {
-        if rng.chance(1, 4) && !w.structs[v].members.iter().any(|m| matches!(m.ty, Ty::Scalar(Sc::F64) | Ty::Vec(_, Sc::F64))) {
-            text_globals.push_str(&format!("@group({group}) @binding({}) var<storage, read> vertex_pull: array<{}>;\n", binding + 1, w.structs[v].name));
-            host_roots.push(Ty::Runtime(Box::new(Ty::Struct(v))));
+    // a vertex input struct whose members are ALL builtins (it still is one of the entry's struct parameters);
+    // it only carries builtins that no other input struct carries, so any subset of `vin` is a valid parameter list
+    let mut builtin_only: Option<usize> = None;
+    if n_vin > 0 && rng.chance(1, 3) {
+        let carried = |n: &str| vin.iter().any(|si| w.structs[*si].members.iter().any(|m| m.name == n));
+        let mut avail: Vec<(&str, &str)> = vec![];
+        if !carried("vertex_idx") {
+            avail.push(("vertex_idx", "@builtin(vertex_index)"));
+        }
+        if !carried("instance_idx") {
+            avail.push(("instance_idx", "@builtin(instance_index)"));
+        }
+        if avail.len() == 2 && rng.chance(1, 2) {
+            avail.remove(rng.below(2));
+        }
+        if !avail.is_empty() {
+            rng.shuffle(&mut avail);
+            let members = avail.iter().map(|(n, a)| Member { name: n.to_string(), ty: Ty::Scalar(Sc::U32), attr: a.to_string(), builtin: true, location: None }).collect();
+            let name = format!("{}{}", rng.pick(&["Indices", "BuiltinsOnly_", "VIdx"]), vin.len());
+            w.structs.push(SDef { name, members });
+            vin.push(w.structs.len() - 1);
+            builtin_only = Some(w.structs.len() - 1);
         }
     }
     // inter-stage struct (vertex result, fragment parameter): never emitted
@@ -493,6 +613,31 @@ pub fn world(spec: &WorldSpec, rng: &mut Rng) -> World {
             None => text_fns.push_str(&format!("@vertex\nfn {name}({}) -> @builtin(position) vec4<f32> {{ return vec4<f32>(0.0); }}\n", params.join(", "))),
         }
         w.vertex_entries.push((name, list));
+    }
+    // one vertex input struct doubles as a storage buffer element now and then ("both" role); with `nested` it is
+    // reachable from the variable only through nested fixed arrays (preferring a struct some entry really takes)
+    {
+        let ok = |si: &usize| Some(*si) != builtin_only && !w.structs[*si].members.iter().any(|m| matches!(m.ty, Ty::Scalar(Sc::F64) | Ty::Vec(_, Sc::F64)));
+        let used: Vec<usize> = vin.iter().copied().filter(|si| entry_params.contains(si)).filter(|si| ok(si)).collect();
+        let cand = if spec.nested && !used.is_empty() { Some(used[rng.below(used.len())]) } else { vin.first().copied().filter(|si| ok(si)) };
+        if let Some(v) = cand {
+            if rng.chance(if spec.nested { 2 } else { 1 }, 4) {
+                let arr = |t: Ty, n: u32| Ty::Array(Box::new(t), n);
+                let root = match if spec.nested { rng.below(5) } else { 0 } {
+                    0 => Ty::Runtime(Box::new(Ty::Struct(v))),
+                    1 => Ty::Runtime(Box::new(arr(Ty::Struct(v), 4))),
+                    2 => arr(arr(Ty::Struct(v), rng.range(1, 3) as u32), rng.range(1, 3) as u32),
+                    3 => arr(arr(arr(Ty::Struct(v), 2), 1), 2),
+                    _ => {
+                        let members = vec![Member { name: "cells".into(), ty: arr(arr(Ty::Struct(v), 2), 3), attr: String::new(), builtin: false, location: None }];
+                        w.structs.push(SDef { name: "InstanceGrid".into(), members });
+                        Ty::Struct(w.structs.len() - 1)
+                    }
+                };
+                text_globals.push_str(&format!("@group({group}) @binding({}) var<storage, read> vertex_pull: {};\n", binding + 1, w.ty_wgsl(&root)));
+                host_roots.push(root);
+            }
+        }
     }
     // fragment
     if spec.fragment {
